@@ -149,6 +149,18 @@ static void cmp_tlv(KSI_TLV *t, const rnode *n, const char *what) {
 			OC(OC_NEST_REJ_UNTILED);
 			if (res == KSI_OK) fail1("tlv-untiled-accepted", "%s: payload of tag %x (%zu bytes: %s) is not an exact tiling of elements but KSI_TLV_getNestedList succeeded with %zu children",
 			                         what, n->tag, n->raw_len, hx(n->raw, n->raw_len), (size_t)KSI_TLVList_length(l));
+			else {
+				/* the refused expansion leaves the element as it was: asking again is refused again, and the payload it reports is unchanged */
+				int res2;
+				l = NULL;
+				res2 = KSI_TLV_getNestedList(t, &l);
+				CALL();
+				if (res2 == KSI_OK) fail1("tlv-untiled-accepted-on-retry", "%s: payload of tag %x (%zu bytes: %s) is not an exact tiling; KSI_TLV_getNestedList refused it with %x and then accepted it with %zu children", what, n->tag, n->raw_len, hx(n->raw, n->raw_len), res, (size_t)KSI_TLVList_length(l));
+				rv = NULL; rl = 0;
+				res2 = KSI_TLV_getRawValue(t, &rv, &rl);
+				if (res2 != KSI_OK || rl != n->raw_len || (rl && memcmp(rv, n->raw, rl) != 0))
+					fail1("tlv-payload-changed-by-refused-expansion", "%s: tag %x reports a payload of %zu bytes (res %x) after its expansion was refused, it was parsed with %zu bytes", what, n->tag, rl, res2, n->raw_len);
+			}
 		}
 	}
 }
@@ -1388,7 +1400,18 @@ static void e_sequence(const etree *t0, int origin, const int *ops, int nops) {
 		int res = KSI_TlvElement_detach(pe);
 		CALL();
 		if (res != KSI_OK) fail1("elem-edit-detach", "%s: detach after the edits returned %x", what, res);
-		else e_check(pe, &t, what);
+		else {
+			/* a detached element owns one buffer that IS its encoding, and reports that encoding's header and payload length */
+			vbuf enc2;
+			rnode *r2 = e_ref(&t);
+			vb_init(&enc2);
+			rt_layout(r2);
+			if (rt_encode(r2, &enc2, 1) != 0) vf_harness_error("part e: reference encoding after the edits");
+			if (pe->ptr == NULL || pe->ftlv.hdr_len + pe->ftlv.dat_len != enc2.n || memcmp(pe->ptr, enc2.p, enc2.n) != 0)
+				fail1("elem-edit-detached-buffer", "%s: after the final detach the element's own buffer (header %zu + payload %zu bytes) is not its encoding (%zu bytes)", what, pe->ftlv.hdr_len, pe->ftlv.dat_len, enc2.n);
+			vb_free(&enc2);
+			e_check(pe, &t, what);
+		}
 	}
 done:
 	KSI_TlvElement_free(pe);
